@@ -17,6 +17,10 @@ R03c start of a timed wait: the start operand of get_duration_end is the clock t
      time), read when the instruction is first visited - directly (Pause/Hold), or through an attribute of the node (Wait:
      node.wait_start_time) whose every write in the interpreter has that clock as its only source (helper returns are
      followed) and which the node's reset_runtime_state clears, so a second invocation (macro call, Alarm body) counts anew.
+R03d scope pairing: emit_on_scope_activate for a Watch/Alarm is paired with emit_on_scope_end on both ways its handler can end -
+     at the end of the body (in the visitor) and when the handler is aborted with its block (_abort_block_interrupts): a scope
+     that is never ended stays on top of Scope Time's stack, and every later root-level threshold is compared with the dead
+     Watch's timer.
 If an anchor is rewritten in a shape the extractor does not recognise the check exits 2, not 1.
 Does not decide "no later than the first tick at which ...", the 0.1 s correction, or pauses.
 """
@@ -70,6 +74,11 @@ def _multiplier(e, var="time"):
 
 
 def run(ctx) -> None:
+    _run_main(ctx)
+    _r03d(ctx)
+
+
+def _run_main(ctx) -> None:
     prog = ctx.prog
     ctx.rule("R03a", "duration regex units == get_duration_end units with multipliers 1/60/3600; all waits use it")
     ctx.rule("R03c", "a timed wait starts counting at the tick time of its first visit")
@@ -494,3 +503,27 @@ def _check_wait_start(ctx, f, call, clock):
             ctx.ok("R03c", inst, {"rule": "R03c", "start": txt})
         else:
             ctx.fail("R03c", f, call, inst, f"the start operand is `{txt}`, not the clock `{clock}` the waiting loop compares against")
+
+
+def _r03d(ctx):
+    ctx.rule("R03d", "an activated Watch/Alarm scope is ended when its handler is aborted")
+    prog = ctx.prog
+    pi = prog.cls("openpectus.lang.exec.pinterpreter:PInterpreter")
+    ab = pi.methods.get("_abort_block_interrupts")
+    if ab is None:
+        raise AnchorError("PInterpreter._abort_block_interrupts missing")
+    ctx.analysed(ab)
+    acts = [v for v in ("visit_WatchNode", "visit_AlarmNode") if any(
+        isinstance(c, ast.Call) and call_attr(c) == "emit_on_scope_activate" for c in walk_no_nested(pi.methods[v].node))]
+    if not acts:
+        raise AnchorError("no visitor emits on_scope_activate")
+    g = cfg_of(ab)
+    unreg = [n for n in g.nodes if n.ast is not None and any(call_attr(c) == "_unregister_interrupt" for c in n.calls())]
+    ends = [n for n in g.nodes if n.ast is not None and any(call_attr(c) == "emit_on_scope_end" for c in n.calls())]
+    inst = "_abort_block_interrupts: an aborted handler whose scope was activated emits on_scope_end"
+    if unreg and ends and all(any(g.search([u.id], lambda n, e=e: n.id == e.id, follow_exc=False) is not None for e in ends) for u in unreg):
+        ctx.ok("R03d", inst)
+    else:
+        ctx.fail("R03d", ab, (unreg[0].ast if unreg else ab.node), inst, f"{', '.join(acts)} activate a scope, but an interrupt aborted with its block is only "
+                 "unregistered: its scope stays on Scope Time's stack for the rest of the run, so a root-level threshold after the block is "
+                 "compared with the dead Watch's timer and starts late")
